@@ -163,15 +163,24 @@ def rdac_build(rng, d):
     return bytes(data)
 
 
+class CallbackFault(Exception):
+    """raised by the harness's own completion callback (the application's fault, not the handler's)"""
+
+
 class RDACSut:
-    def __init__(self, rng):
+    def __init__(self, rng, raising=False):
         from okdmr.dmrlib.protocols.hytera.rdac_datagram_protocol import RDACDatagramProtocol
         from okdmr.dmrlib.storage.repeater_storage import RepeaterStorage
         stub_snmp()
         self.rng = rng
         self.st = RepeaterStorage()
         self.done = []
-        self.h = RDACDatagramProtocol(storage=self.st, callback=lambda i: self.done.append(i))
+
+        def callback(i):
+            self.done.append(i)
+            if raising:
+                raise CallbackFault("the application's completion callback fails")
+        self.h = RDACDatagramProtocol(storage=self.st, callback=callback)
         self.tr = FakeTransport()
         self.h.connection_made(self.tr)
 
@@ -181,6 +190,8 @@ class RDACSut:
         outcome = "ok"
         try:
             self.h.datagram_received(rdac_build(self.rng, d), tuple(addr))
+        except CallbackFault:
+            pass                         # the application's own fault comes back to it; what the handler did is judged as usual
         except Exception:  # noqa
             outcome = "raise"
         rpt = self.st.match_incoming(tuple(addr))
@@ -210,7 +221,8 @@ def rdac_run(args):
     seed, steps = args
     import random
     core.setup_repo_path()
-    sut = RDACSut(random.Random(seed))
+    # in one run out of three the application's completion callback raises (a fault at the point where the run is reported)
+    sut = RDACSut(random.Random(seed), raising=seed % 3 == 1)
     return {"init": {}, "ev": [sut.event(a, d) for a, d in steps]}
 
 
